@@ -266,6 +266,15 @@ pub fn c10(f: &Facts, o: &Outcome) -> Vec<String> {
     if !fresh && !auth_store.is_empty() { why.push("auth cookie issued without fresh authentication".into()); }
     if routed {
         let want_session = f.session_present == Some(false);
+        // a fresh session cookie names the address and port the client put into its handshake
+        let hs = f.sc.steps.iter().find_map(|s| match s { super::Step::Frame(p) => super::decode::handshake_host_port(p), _ => None });
+        if let (Some((h, port)), [(_, CbPacket::StoreCookie { payload, .. })]) = (&hs, sess_store.as_slice()) {
+            match serde_json::from_slice::<serde_json::Value>(payload) {
+                Ok(j) => { if j["server_address"].as_str().map(str::as_bytes) != Some(h.as_slice()) || j["server_port"].as_u64() != Some(u64::from(*port)) { why.push(format!("session cookie records {}:{} but the handshake named {}:{port}", j["server_address"], j["server_port"], String::from_utf8_lossy(h))); }
+                    if j["id"].as_str().and_then(|s| uuid::Uuid::parse_str(s).ok()).is_none() { why.push("session cookie without a session id".into()); } }
+                Err(_) => why.push("session cookie body is not JSON".into()),
+            }
+        }
         if want_session != (sess_store.len() == 1) { why.push(format!("session cookie {} although the client presented {}", if sess_store.is_empty() { "not issued" } else { "issued" }, if want_session { "none" } else { "one" })); }
     } else if !sess_store.is_empty() { why.push("session cookie issued without routing".into()); }
     why
